@@ -13,6 +13,7 @@ package main
 // Oracle: rejected ∧ the generator built the world honest.
 
 import (
+	"github.com/google/go-tdx-guest/verify"
 	"crypto/x509"
 	"encoding/hex"
 	"encoding/pem"
@@ -527,8 +528,35 @@ func c11(r *hx.Run) {
 		rng := caseRng(r, 1, i)
 		o := optLevels[i%3]
 		s, tags := c11Spec(rng, o[0], o[1])
+		// the extremes of the 16-bit length field (thorough: more of them)
+		if i%97 == 5 || (r.Tier == "thorough" && i%23 == 5) {
+			s.Quote.Auth = hx.RandBytes(rng, []int{65535, 65534, 65533, 32768, 32767, 65280}[(i/23)%6])
+			tags = append(tags, "auth-len:16-bit-extreme")
+		}
 		w := world.Build(s)
-		return vCase{w, honestOracle(w), append(tags, "honest-synthetic")}
+		inner := honestOracle(w)
+		// every honest quote also as the byte string the platform hands out, through verify.RawTdxQuote
+		return vCase{w, func(vr vResult) string {
+			if f := inner(vr); f != "" {
+				return f
+			}
+			if !w.Spec.Honest {
+				return ""
+			}
+			ro := &verify.Options{GetCollateral: w.Spec.GC, CheckRevocations: w.Spec.CR, Getter: &world.Getter{M: w.Getter.M}, TrustedRoots: w.Pool()}
+			if n := w.Spec.Now; n != nil {
+				ro.Now = vTimeSet(n)
+			}
+			var rerr error
+			res, _ := hx.Guard(func() string { rerr = verify.RawTdxQuote(quoteRaw(w.Quote), ro); return "" })
+			if res == "panic" {
+				return fmt.Sprintf("verify.RawTdxQuote crashed on an honest quote (QE auth data %d bytes)", len(qqc(w.Quote).QeAuthData.Data))
+			}
+			if rerr != nil {
+				return fmt.Sprintf("honest in-date quote rejected by verify.RawTdxQuote (QE auth data %d bytes): %v", len(qqc(w.Quote).QeAuthData.Data), rerr)
+			}
+			return ""
+		}, append(tags, "honest-synthetic")}
 	})
 
 	// ---- the genuine Intel sample quotes under the embedded root
